@@ -152,7 +152,13 @@ func (s *socket) Construct(id string, server BaseServer, transport transports.Tr
 
 // Called upon transport considered open.
 func (s *socket) onOpen() {
-	s.SetReadyState("open")
+	// opening -> open only: a transport error or close delivered between
+	// setTransport and here has already closed the session, which must stay
+	// closed (no open packet, no timers armed on a dead session)
+	if !s.readyState.CompareAndSwap("opening", "open") {
+		return
+	}
+	socket_log.Debug("readyState updated from %s to %s", "opening", "open")
 
 	// sends an `open` packet
 	s.Transport().SetSid(s.id)
